@@ -368,3 +368,117 @@ Example C05_example_budget :
   connect_ctx 10 (Some 300) 100 = Some 110 /\ connect_ctx 10 (Some 300) 1000 = Some 300 /\ connect_ctx 10 (Some 300) 0 = Some 300 /\
   connect_ctx 10 None 0 = None /\ handshake_deadline 10 12 None 0 = 12 + 5000000000 /\ handshake_deadline 10 12 (Some 300) 100 = 110.
 Proof. vm_compute. repeat split; reflexivity. Qed.
+
+(* ===================================================================================== *)
+(* LOCKS AS BLOCKING SITES (strengthening).  A sync.Mutex acquisition has no exit bound to   *)
+(* the caller's deadline; it is bounded only through the lock discipline of EVERY user of    *)
+(* the mutex.  Definitions: Spec/LockProgSpec.v (lock programs, their executions xs/xb with the  *)
+(* trace of lock events, exit_clean, ev_ok, lock_disciplined, plain_mutex), Model/LockProg.v *)
+(* (checker fn_ok; thread model tstep/trun, ops_ok, sections_left), Gen/GenLockProgs.v       *)
+(* (lockp_progs, lockp_mutexes, lockp_sites, lockp_sites_conn: regenerated from the Go source on *)
+(* every run by go2v/lockprogs.go), Proofs/LockProgP.v.                                      *)
+(* ===================================================================================== *)
+From Verif Require Import Spec.LockProgSpec Gen.GenLockProgs Model.LockProg Proofs.LockProgP.
+
+(* THE GENERATED LOCK PROGRAMS.  For every function and function literal of package tchannel
+   that performs a lock operation (control-flow skeleton regenerated from the source), EVERY
+   execution of the skeleton -- all branches, any number of loop iterations --
+     - that ends in a return or at the end of the body holds no lock after the deferred
+       unlocks have run, and never releases a lock it does not hold           (balance),
+     - executes a blocking statement (select without default, channel operation, network
+       I/O, dial, Wait, Sleep; here or in a callee of the static call graph) only while no
+       plain mutex is held (the context-aware semaphore of peer.go may be)  (no blocking),
+     - takes a mutex (here or in a callee) only if it is strictly smaller, in the numbering
+       of lockp_mutexes, than every lock held at that moment            (order, no re-entry). *)
+Theorem C05_lock_discipline_generated : Forall (lock_disciplined (sem_of lockp_mutexes)) lockp_progs.
+Proof. exact lock_progs_disciplined. Qed.
+
+(* the checker that decides this over the generated programs is sound for every execution,
+   for any program and any set of semaphores *)
+Theorem C05_lock_checker_sound : forall sem f, fn_ok sem f = true -> lock_disciplined sem f.
+Proof. exact fn_ok_sound. Qed.
+
+(* THE COMBINED TABLE.  Every blocking site on the call path -- the waits of C05_wait_exits
+   and the lock acquisitions in the closure of the caller-side entry points, of the connection
+   goroutines, the inbound side, the relay and the connection failure path -- is either a wait
+   with an exit bound to the caller's deadline (ctx.Done() / context-derived connection
+   deadline; or the never-blocking semaphore release), or the acquisition of a plain mutex of
+   the table, inside a function whose lock program is in the table, all of whose users follow
+   the lock discipline. *)
+Theorem C05_every_blocking_site_bounded : Forall (bsite_bounded lockp_mutexes lockp_progs) call_path_sites.
+Proof. exact all_blocking_sites_bounded. Qed.
+
+(* WHY THE DISCIPLINE BOUNDS A LOCK WAIT.  Threads whose lock operations follow the discipline
+   (ops_ok: acquisitions strictly downwards, releases of held mutexes, waits only with nothing
+   held, nothing held at the end), any number of them, any interleaving, any timing of the
+   environment's events: in every reachable state
+     - if some mutex is held, a thread that holds one has an enabled step of its own (no
+       deadlock among lock holders, no holder waits for the environment), and
+     - the holders alone -- without any event of the environment, timer or step of a thread
+       that holds nothing -- reach a state in which every mutex is free in exactly
+       sections_left s steps, the number of operations left in the open critical sections.
+   A goroutine waiting for a mutex therefore waits no longer than the holders' critical
+   sections take, and those contain no blocking statement. *)
+Theorem C05_lock_wait_bounded : forall threads ls s,
+  Forall (fun ops => ops_ok [] ops = true) threads -> trun (tinit threads) ls = Some s ->
+  (~ all_free s -> exists i held ops, nth i s ([], []) = (held, ops) /\ held <> [] /\ exists s1, tstep s (TStep i) = Some s1) /\
+  (exists ls' s', Forall is_tstep ls' /\ length ls' = sections_left s /\ trun s ls' = Some s' /\ all_free s').
+Proof. exact lock_wait_bounded. Qed.
+
+(* the discipline is necessary: a thread that returns with the mutex held (a return path
+   without the matching Unlock) is refused by ops_ok, and a second thread that then wants the
+   mutex waits for ever -- no label is enabled in that state, whatever the environment does *)
+Theorem C05_leaked_lock_blocks_forever :
+  ops_ok [] [OAcq 4] = false /\
+  exists s, trun (tinit [[OAcq 4]; [OAcq 4; ORel 4]]) [TStep 0] = Some s /\
+    nth 1 s ([], []) = ([], [OAcq 4; ORel 4]) /\ forall l, tstep s l = None.
+Proof. exact leaked_lock_blocks. Qed.
+
+(* ... and the lock program of that shape is refused by the checker because it HAS an
+   execution that returns holding the lock *)
+Theorem C05_leaking_program_refused :
+  fn_ok (fun _ => false) ex_leak = false /\ ~ lock_disciplined (fun _ => false) ex_leak /\
+  fn_ok (fun _ => false) ex_block = false /\ fn_ok (fun _ => false) ex_order = false /\ fn_ok (fun _ => false) ex_good = true.
+Proof. exact (conj (proj1 checker_refuses) (conj leak_not_disciplined (proj2 checker_refuses))). Qed.
+
+(* THE LINK between the two: every execution of a disciplined lock program that does not end
+   in a panic performs -- events of its trace, then the deferred unlocks at the exit, operations
+   on semaphores left out -- a list of lock operations that the thread model accepts *)
+Theorem C05_program_runs_are_threads : forall sem f, lock_disciplined sem f ->
+  forall c s tr, xb (lf_body f) hinit c s tr -> c <> CPanic -> ops_ok [] (thread_of_run sem tr s) = true.
+Proof. exact run_is_thread. Qed.
+
+(* ... hence for ANY number of goroutines, each executing ANY of the generated lock programs
+   along ANY of its paths, in ANY interleaving: in every reachable state a lock holder can move,
+   and the holders alone free every mutex within the length of the open critical sections *)
+Theorem C05_generated_programs_bound_lock_waits : forall runs : list (lfunc * ltrace * hst),
+  Forall (fun r => let '(f, tr, s) := r in In f lockp_progs /\ exists c, c <> CPanic /\ xb (lf_body f) hinit c s tr) runs ->
+  forall ls st, trun (tinit (map (fun r => let '(f, tr, s) := r in thread_of_run (sem_of lockp_mutexes) tr s) runs)) ls = Some st ->
+  (~ all_free st -> exists i held ops, nth i st ([], []) = (held, ops) /\ held <> [] /\ exists s1, tstep st (TStep i) = Some s1) /\
+  (exists ls' s', Forall is_tstep ls' /\ length ls' = sections_left st /\ trun st ls' = Some s' /\ all_free s').
+Proof. exact generated_programs_bound_lock_waits. Qed.
+
+Print Assumptions C05_program_runs_are_threads.
+Print Assumptions C05_generated_programs_bound_lock_waits.
+Print Assumptions C05_lock_discipline_generated.
+Print Assumptions C05_lock_checker_sound.
+Print Assumptions C05_every_blocking_site_bounded.
+Print Assumptions C05_lock_wait_bounded.
+Print Assumptions C05_leaked_lock_blocks_forever.
+Print Assumptions C05_leaking_program_refused.
+
+(* ---------------- non-vacuity ---------------- *)
+(* the generated tables contain the functions, mutexes and acquisitions the property is about *)
+Example C05_example_lock_tables :
+  (60 <= length lockp_progs)%nat /\ (25 <= length lockp_sites)%nat /\ (50 <= length call_path_sites)%nat /\
+  has_prog [109; 101; 115; 115; 97; 103; 101; 69; 120; 99; 104; 97; 110; 103; 101; 83; 101; 116; 46; 110; 101; 119; 69; 120; 99; 104; 97; 110; 103; 101] = true /\ has_prog [109; 101; 115; 115; 97; 103; 101; 69; 120; 99; 104; 97; 110; 103; 101; 83; 101; 116; 46; 114; 101; 109; 111; 118; 101; 69; 120; 99; 104; 97; 110; 103; 101] = true /\ has_prog [109; 101; 115; 115; 97; 103; 101; 69; 120; 99; 104; 97; 110; 103; 101; 83; 101; 116; 46; 115; 116; 111; 112; 69; 120; 99; 104; 97; 110; 103; 101; 115] = true /\ has_prog [67; 111; 110; 110; 101; 99; 116; 105; 111; 110; 46; 114; 101; 97; 100; 83; 116; 97; 116; 101] = true /\
+  has_prog [114; 101; 108; 97; 121; 73; 116; 101; 109; 115; 46; 65; 100; 100] = true /\ has_prog [80; 101; 101; 114; 46; 71; 101; 116; 67; 111; 110; 110; 101; 99; 116; 105; 111; 110] = true /\
+  has_mutex [109; 101; 115; 115; 97; 103; 101; 69; 120; 99; 104; 97; 110; 103; 101; 83; 101; 116] = true /\ has_mutex [67; 111; 110; 110; 101; 99; 116; 105; 111; 110; 46; 115; 116; 97; 116; 101; 77; 117; 116] = true /\ has_mutex [114; 101; 108; 97; 121; 73; 116; 101; 109; 115] = true /\ has_mutex [80; 101; 101; 114] = true /\
+  Nat.leb 5 (sites_of_mutex [109; 101; 115; 115; 97; 103; 101; 69; 120; 99; 104; 97; 110; 103; 101; 83; 101; 116]) = true /\ Nat.leb 3 (sites_of_mutex [67; 111; 110; 110; 101; 99; 116; 105; 111; 110; 46; 115; 116; 97; 116; 101; 77; 117; 116]) = true /\ Nat.leb 4 (sites_of_mutex [114; 101; 108; 97; 121; 73; 116; 101; 109; 115]) = true.
+Proof. vm_compute. repeat split; repeat constructor. Qed.
+
+(* the thread model's hypotheses hold for a concrete system with a nested acquisition, and a
+   waiter exists in a reachable state of it *)
+Example C05_example_threads : Forall (fun ops => ops_ok [] ops = true) ex_threads /\
+  exists s, trun (tinit ex_threads) [TStep 1; TStep 1] = Some s /\ sections_left s = 2%nat /\ tstep s (TStep 0) = None.
+Proof. exact ex_threads_ok. Qed.
